@@ -2,14 +2,18 @@ module verif/seq
 
 go 1.23.0
 
-require github.com/insomniacslk/dhcp v0.0.0
+require (
+	github.com/insomniacslk/dhcp v0.0.0
+	github.com/u-root/uio v0.0.0-20230220225925-ffce2a382923
+)
 
 require (
 	github.com/josharian/native v1.1.0 // indirect
+	github.com/jsimonetti/rtnetlink v1.3.5 // indirect
+	github.com/mdlayher/netlink v1.7.2 // indirect
 	github.com/mdlayher/packet v1.1.2 // indirect
 	github.com/mdlayher/socket v0.4.1 // indirect
 	github.com/pierrec/lz4/v4 v4.1.14 // indirect
-	github.com/u-root/uio v0.0.0-20230220225925-ffce2a382923 // indirect
 	golang.org/x/net v0.38.0 // indirect
 	golang.org/x/sync v0.3.0 // indirect
 	golang.org/x/sys v0.31.0 // indirect
